@@ -6,15 +6,19 @@ SPEC = dict(
     drivers=["qxdriver_c16"],
     harnesses=[dict(name="server", asan=False, driver="qxdriver_c16")],
     exhaustive=True,
-    rule="real QXmppServer (domain example.org, table password checker whose QXmppPasswordReply objects finish when the script says "
-         "'deliver i', no TLS) on loopback inside the harness; a victim socket logged in with PLAIN + bind + presence; an attacker "
+    rule="real QXmppServer (domain example.org, no TLS) on loopback inside the harness, run with TWO password checkers: (a) a table "
+         "checker overriding checkPassword/getDigest whose QXmppPasswordReply objects finish when the script says 'deliver i', and "
+         "(b) a checker implementing only getPassword()/hasGetPassword() (the documented way), so that the library's default "
+         "checkPassword()/getDigest() run and replies finish on the next event-loop turn; server nonces are the real random ones; a victim socket logged in with PLAIN + bind + presence; an attacker "
          "socket playing scripts over {stream open right/wrong domain, <auth>/<authenticate> PLAIN|DIGEST-MD5|ANONYMOUS|unknown with "
          "right/wrong/empty/junk/non-base64 payloads, <response> (SASL and SASL2), <abort>, deliver, bind, session, "
          "message/presence/iq with from in {absent, own full, own bare, victim's, garbage} and to in {victim, server, self, nobody, "
          "other domains, absent}, stream close}: every word of length 2 before any stream header, lengths 1..3 (quick) / 1..4 (thorough) "
          "over a 24-symbol alphabet and length 4 (quick) / 5 (thorough) over an 11-symbol alphabet after a stream header, length 2 (quick) / 3 (thorough) over the 24 symbols after a "
          "correct PLAIN login and 3 / 4 over the 11 symbols after a SASL2 login with inline bind (a word whose "
-         "connection died after k symbols stands for all words with that prefix), plus seeded random scripts up to 20 elements "
+         "connection died after k symbols stands for all words with that prefix), DIGEST-MD5 exchanges (SASL and SASL2, both checkers) to length 3/4 over a 14-symbol alphabet of "
+         "responses computed from the right / a wrong / the empty password for known, unknown and temporarily failing users, from "
+         "another account's secret, and recorded responses replayed over a stale nonce; plus seeded random scripts up to 20 elements "
          "(mostly starting with a correct login); a fresh server, victim login and attacker connection per script. Every line compares "
          "with the Lean model: canonical elements received by attacker and victim, stanzas the attacker's QXmppIncomingClient emitted "
          "for routing, clientConnected/clientDisconnected signals, the jid at each auth.success counter and the server-side jid() after "
@@ -27,10 +31,12 @@ SPEC = dict(
         "the reading of the property in lean/Qx/Props/C16.lean (Approved / JidOf / NeedsAuth in lean/Qx/Proofs/C16.lean)",
         "Qt: QTcpSocket/QSslSocket in plain mode on loopback, QObject parent/child deletion, QPointer, direct signal delivery",
         "DIGEST-MD5 is abstracted: a response verifies iff it was computed from the digest the checker returns for the named user "
-        "(MD5 collision freeness is the named assumption behind 'computed from'); the harness computes real responses with a forced nonce",
+        "over the nonce of this session's challenge (MD5 collision freeness is the named assumption behind 'computed from'); the harness "
+        "computes real responses over the server's real nonces, and replays responses carrying a stale nonce",
     ],
     assumptions=[
-        "password checker = any function of (user, password) resp. user, answered when asked and delivered at an arbitrary later "
+        "password checker = any function of (user, password) resp. user (Cfg), or derived from getPassword exactly as the library "
+        "defaults do (Cfg.ofGetPassword, theorem auth_only_if_getPassword_approves); answered when asked and delivered at an arbitrary later "
         "point (QXmppPasswordReply::finished); user names/domains compared as raw strings as the code does",
         "no server extensions, no S2S listener, no TLS (setLocalCertificate not called): default stanza handler only",
         "delivery through a routing-table entry that points to an already deleted connection (use-after-free in C++ after a rebind) "
